@@ -35,7 +35,7 @@ class World(object):
         self.log = []                 # ordered: ('write', sock_id, data) ('recv', sock_id, n) ('close', sock_id) ...
         self.socks = []
         self.selectors = []
-        self.clock = 0.0
+        self.clock = 1700000000.0     # time.time() is seconds since the epoch, not since the session started
         self.scripts = {}             # connection index -> Script  (order of successful socket creation)
         self.default_script = None
         self.resolve = None           # callable(host, port) -> list of sockaddr  | raises
@@ -742,9 +742,14 @@ class RecordingZlibModule(object):
         return getattr(_zlib, name)
 
 
+PRISTINE = False
+
+
 def install_pristine():
     """replay mode: the real, un-instrumented package with only the environment replaced"""
     import sys
+    global PRISTINE
+    PRISTINE = True
     src = os_path_parent(instrument.ROOT)
     if src not in sys.path:
         sys.path.insert(0, src)
